@@ -118,6 +118,15 @@ PickLevel ==
     /\ phase' = "lists"
     /\ UNCHANGED <<la, lb, C, S, idx>>
 
+(* premarked: a field / method only one side has, already marked @Environment(client | server); la carries the side, lb the mark *)
+PickPre ==
+    /\ phase = "start"
+    /\ \E l \in {"fields", "methods"}, side \in {"client", "server"}, pre \in {"client", "server"} :
+        lvl' = l /\ la' = <<side>> /\ lb' = <<pre>>
+    /\ phase' = "pre"
+    /\ UNCHANGED <<same, C, S, idx>>
+InvPre == phase = "pre" => PreMarkedLaw(lb, la[1])
+
 PickName(ph, from, allowed) ==
     /\ phase = from
     /\ \E i \in (idx + 1)..Len(Pool) :
@@ -146,7 +155,7 @@ PickCPServer ==
     /\ phase' = "classpair"
     /\ UNCHANGED <<la, lb, lvl, same, C, idx>>
 
-Next == PickA \/ PickB \/ PickLevel \/ PickRow \/ PickPair \/ PickTriple \/ PickCPLevel \/ PickCPClient \/ PickCPServer
+Next == PickPre \/ PickA \/ PickB \/ PickLevel \/ PickRow \/ PickPair \/ PickTriple \/ PickCPLevel \/ PickCPClient \/ PickCPServer
 Spec == Init /\ [][Next]_vars
 
 ---------------------------------------------------------------------------
@@ -195,6 +204,9 @@ JarsCls ==
          IN "classpair/" \o lvl \o "/" \o SlotStatus(CPKeys[lvl][1], cl, sl) \o "+" \o SlotStatus(CPKeys[lvl][2], cl, sl)
     ELSE phase
 Emit ==
+    /\ phase = "pre" =>
+          PrintT(ToJson([op |-> "premarked", level |-> lvl, side |-> la[1], pre |-> lb[1],
+                         exp |-> (("ok" :> TRUE) @@ ("found" :> TRUE) @@ (("has_" \o la[1]) :> TRUE) @@ (("has_" \o lb[1]) :> TRUE))]))
     /\ phase = "lists" =>
           PrintT(ToJson([op |-> "lists", level |-> lvl, a |-> CA, b |-> CB, same |-> same,
                          compatible |-> Compatible(la, lb), rel |-> Rel(la, lb),
